@@ -244,7 +244,10 @@ def main(argv=None):
         from .engine import ShardState, smallest_failure
         cands = sorted(agg['failures'], key=lambda f: len(json.dumps(f[0], default=str)))
         confirmed = None
-        for cand in cands[:5]:
+        t_confirm = time.time()
+        for i_c, cand in enumerate(cands[:40]):
+            if i_c >= 5 and time.time() - t_confirm > 150:
+                break
             case, bad0 = cand[0], cand[1]
             st_ = ShardState(prop, a.tier, known=known)
             try:
